@@ -22,7 +22,8 @@ CONSTANTS QCap,        \* event queue capacity (Options.EventQueueSize)
           Posters,     \* set of poster ids
           BlockingPosters, \* subset using PostEventBlocking
           Drain, QuitEscape,
-          SignalPath   \* TRUE: shutdown is triggered by a signal handled in the input goroutine
+          SignalPath,  \* TRUE: shutdown is triggered by a signal handled in the input goroutine
+          CloseFirst   \* TRUE (the code): Suspend asks the parser to stop, then writes the query whose reply wakes it
 
 PCap == 2              \* parser channel capacity
 
@@ -32,7 +33,8 @@ VARIABLES queue,       \* event queue: sequence of <<src, n>>
           pclosed,     \* parser channel closed
           inLeft,      \* input sequences not yet read by the parser
           closeReq,    \* parser.Close() called
-          da1,         \* the DA1 reply byte is available to the parser
+          nread,       \* sequences read by the parser so far
+          woke,        \* Suspend has written the wake-up query (its reply is part of inLeft)
           rl,          \* run loop pc: "read" | "send" | "sendeof" | "done"
           rlItem,
           ig,          \* input goroutine pc: "select" | "post" | "closing" | "done"
@@ -46,11 +48,11 @@ VARIABLES queue,       \* event queue: sequence of <<src, n>>
           got,         \* events the application received, in order
           lost         \* blocking posts abandoned while Vaxis was open
 
-vars == <<queue, qsend, pch, psend, pclosed, inLeft, closeReq, da1, rl, rlItem, ig, igItem, mn, appReads, quit, sig, posted, dropped, got, lost>>
+vars == <<queue, qsend, pch, psend, pclosed, inLeft, closeReq, nread, woke, rl, rlItem, ig, igItem, mn, appReads, quit, sig, posted, dropped, got, lost>>
 
 Init ==
   /\ queue = <<>> /\ qsend = <<>> /\ pch = <<>> /\ psend = <<>> /\ pclosed = FALSE
-  /\ inLeft = NIn /\ closeReq = FALSE /\ da1 = FALSE
+  /\ inLeft = NIn /\ closeReq = FALSE /\ nread = 0 /\ woke = FALSE
   /\ rl = "read" /\ rlItem = 0 /\ ig = "select" /\ igItem = <<>> /\ mn = "run" /\ appReads = TRUE
   /\ quit = FALSE /\ sig = FALSE
   /\ posted = [p \in Posters |-> 0] /\ dropped = {} /\ got = <<>> /\ lost = {}
@@ -60,25 +62,24 @@ QHasRoom == Len(queue) < QCap /\ qsend = <<>>
 BlockedOnQ(who) == \E i \in 1..Len(qsend) : qsend[i].who = who
 
 (* ---- parser run loop -------------------------------------------------------- *)
-RlRead ==
-  /\ rl = "read"
-  /\ IF closeReq /\ (da1 \/ inLeft > 0) THEN       \* the byte after Close(): loop top sees the close request
-        /\ rl' = "sendeof" /\ UNCHANGED <<inLeft, rlItem, da1>>
-     ELSE /\ inLeft > 0 /\ ~closeReq
-          /\ inLeft' = inLeft - 1 /\ rlItem' = NIn - inLeft + 1 /\ rl' = "send" /\ UNCHANGED da1
-  /\ UNCHANGED <<queue, qsend, pch, psend, pclosed, closeReq, ig, igItem, mn, appReads, quit, sig, posted, dropped, got, lost>>
+RlRead ==                              \* read one sequence worth of input; the loop top then looks at the close request
+  /\ rl = "read" /\ inLeft > 0
+  /\ inLeft' = inLeft - 1 /\ nread' = nread + 1
+  /\ IF closeReq THEN rl' = "sendeof" /\ UNCHANGED rlItem
+     ELSE rl' = "send" /\ rlItem' = nread + 1
+  /\ UNCHANGED <<queue, qsend, pch, psend, pclosed, closeReq, woke, ig, igItem, mn, appReads, quit, sig, posted, dropped, got, lost>>
 RlSend ==
   /\ rl \in {"send", "sendeof"} /\ psend = <<>>
   /\ LET it == IF rl = "send" THEN <<"in", rlItem>> ELSE <<"eof", 0>> IN
      IF Len(pch) < PCap THEN pch' = Append(pch, it) /\ UNCHANGED psend
      ELSE psend' = <<it>> /\ UNCHANGED pch
   /\ rl' = IF rl = "send" THEN "sent" ELSE "eofsent"
-  /\ UNCHANGED <<queue, qsend, pclosed, inLeft, closeReq, da1, rlItem, ig, igItem, mn, appReads, quit, sig, posted, dropped, got, lost>>
+  /\ UNCHANGED <<queue, qsend, pclosed, inLeft, closeReq, nread, woke, rlItem, ig, igItem, mn, appReads, quit, sig, posted, dropped, got, lost>>
 RlAfter ==
   /\ rl \in {"sent", "eofsent"} /\ psend = <<>>
   /\ IF rl = "sent" THEN rl' = "read" /\ UNCHANGED pclosed
      ELSE rl' = "done" /\ pclosed' = TRUE
-  /\ UNCHANGED <<queue, qsend, pch, psend, inLeft, closeReq, da1, rlItem, ig, igItem, mn, appReads, quit, sig, posted, dropped, got, lost>>
+  /\ UNCHANGED <<queue, qsend, pch, psend, inLeft, closeReq, nread, woke, rlItem, ig, igItem, mn, appReads, quit, sig, posted, dropped, got, lost>>
 
 (* receive from the parser channel (by the input goroutine or by Suspend's drain) *)
 PTake == IF psend # <<>> THEN pch' = Append(Tail(pch), psend[1]) /\ psend' = <<>>
@@ -90,25 +91,25 @@ IgTake ==
   /\ PTake
   /\ IF Head(pch)[1] = "eof" THEN ig' = "done" /\ UNCHANGED igItem
      ELSE ig' = "post" /\ igItem' = <<"input", Head(pch)[2]>>
-  /\ UNCHANGED <<queue, qsend, pclosed, inLeft, closeReq, da1, rl, rlItem, mn, appReads, quit, sig, posted, dropped, got, lost>>
+  /\ UNCHANGED <<queue, qsend, pclosed, inLeft, closeReq, nread, woke, rl, rlItem, mn, appReads, quit, sig, posted, dropped, got, lost>>
 IgClosedCh ==                      \* the channel is closed and empty
   /\ ig = "select" /\ pch = <<>> /\ pclosed
   /\ ig' = IF Drain THEN "done" ELSE "select"      \* as found: a nil sequence is handled and the loop spins
-  /\ UNCHANGED <<queue, qsend, pch, psend, pclosed, inLeft, closeReq, da1, rl, rlItem, igItem, mn, appReads, quit, sig, posted, dropped, got, lost>>
+  /\ UNCHANGED <<queue, qsend, pch, psend, pclosed, inLeft, closeReq, nread, woke, rl, rlItem, igItem, mn, appReads, quit, sig, posted, dropped, got, lost>>
 IgPost ==                          \* PostEventBlocking
   /\ ig = "post"
   /\ IF QHasRoom THEN queue' = Append(queue, igItem) /\ UNCHANGED qsend
      ELSE qsend' = Append(qsend, [who |-> "ig", ev |-> igItem]) /\ UNCHANGED queue
   /\ ig' = "posted"
-  /\ UNCHANGED <<pch, psend, pclosed, inLeft, closeReq, da1, rl, rlItem, igItem, mn, appReads, quit, sig, posted, dropped, got, lost>>
+  /\ UNCHANGED <<pch, psend, pclosed, inLeft, closeReq, nread, woke, rl, rlItem, igItem, mn, appReads, quit, sig, posted, dropped, got, lost>>
 IgPosted ==
   /\ ig = "posted" /\ ~BlockedOnQ("ig")
   /\ ig' = "select"
-  /\ UNCHANGED <<queue, qsend, pch, psend, pclosed, inLeft, closeReq, da1, rl, rlItem, igItem, mn, appReads, quit, sig, posted, dropped, got, lost>>
+  /\ UNCHANGED <<queue, qsend, pch, psend, pclosed, inLeft, closeReq, nread, woke, rl, rlItem, igItem, mn, appReads, quit, sig, posted, dropped, got, lost>>
 IgSignal ==                        \* case <-chSigKill: vx.Close(); return  (Close runs here, see Main* with who = "ig")
   /\ SignalPath /\ ig = "select" /\ sig /\ mn = "run"
   /\ sig' = FALSE /\ ig' = "closing" /\ mn' = "suspend1" /\ appReads' = FALSE
-  /\ UNCHANGED <<queue, qsend, pch, psend, pclosed, inLeft, closeReq, da1, rl, rlItem, igItem, quit, posted, dropped, got, lost>>
+  /\ UNCHANGED <<queue, qsend, pch, psend, pclosed, inLeft, closeReq, nread, woke, rl, rlItem, igItem, quit, posted, dropped, got, lost>>
 
 (* ---- main: the application reads events, then shuts down ----------------------- *)
 AppRead ==
@@ -116,36 +117,44 @@ AppRead ==
   /\ got' = Append(got, Head(queue))
   /\ IF qsend # <<>> THEN queue' = Append(Tail(queue), Head(qsend).ev) /\ qsend' = Tail(qsend)
      ELSE queue' = Tail(queue) /\ UNCHANGED qsend
-  /\ UNCHANGED <<pch, psend, pclosed, inLeft, closeReq, da1, rl, rlItem, ig, igItem, mn, appReads, quit, sig, posted, dropped, lost>>
+  /\ UNCHANGED <<pch, psend, pclosed, inLeft, closeReq, nread, woke, rl, rlItem, ig, igItem, mn, appReads, quit, sig, posted, dropped, lost>>
 StartClose ==                      \* the application decides to close (from its own goroutine)
   /\ ~SignalPath /\ mn = "run"
   /\ mn' = "suspend1" /\ appReads' = FALSE
-  /\ UNCHANGED <<queue, qsend, pch, psend, pclosed, inLeft, closeReq, da1, rl, rlItem, ig, igItem, quit, sig, posted, dropped, got, lost>>
+  /\ UNCHANGED <<queue, qsend, pch, psend, pclosed, inLeft, closeReq, nread, woke, rl, rlItem, ig, igItem, quit, sig, posted, dropped, got, lost>>
 RaiseSignal ==
   /\ SignalPath /\ mn = "run" /\ ~sig /\ sig' = TRUE
-  /\ UNCHANGED <<queue, qsend, pch, psend, pclosed, inLeft, closeReq, da1, rl, rlItem, ig, igItem, mn, appReads, quit, posted, dropped, got, lost>>
-Suspend1 ==                        \* parser.Close(); write DA1 (the terminal answers)
+  /\ UNCHANGED <<queue, qsend, pch, psend, pclosed, inLeft, closeReq, nread, woke, rl, rlItem, ig, igItem, mn, appReads, quit, posted, dropped, got, lost>>
+Suspend1 ==                        \* first of: parser.Close() / write the DA1 query (the terminal answers: one more sequence)
   /\ mn = "suspend1"
-  /\ closeReq' = TRUE /\ da1' = TRUE /\ mn' = IF Drain THEN "drain" ELSE "wait"
-  /\ UNCHANGED <<queue, qsend, pch, psend, pclosed, inLeft, rl, rlItem, ig, igItem, appReads, quit, sig, posted, dropped, got, lost>>
+  /\ IF CloseFirst THEN closeReq' = TRUE /\ UNCHANGED <<inLeft, woke>>
+     ELSE inLeft' = inLeft + 1 /\ woke' = TRUE /\ UNCHANGED closeReq
+  /\ mn' = "suspend2"
+  /\ UNCHANGED <<queue, qsend, pch, psend, pclosed, nread, rl, rlItem, ig, igItem, appReads, quit, sig, posted, dropped, got, lost>>
+Suspend2 ==                        \* the other one
+  /\ mn = "suspend2"
+  /\ IF CloseFirst THEN inLeft' = inLeft + 1 /\ woke' = TRUE /\ UNCHANGED closeReq
+     ELSE closeReq' = TRUE /\ UNCHANGED <<inLeft, woke>>
+  /\ mn' = IF Drain THEN "drain" ELSE "wait"
+  /\ UNCHANGED <<queue, qsend, pch, psend, pclosed, nread, rl, rlItem, ig, igItem, appReads, quit, sig, posted, dropped, got, lost>>
 DrainStep ==                       \* for range parser.Next() {}
   /\ mn = "drain" /\ pch # <<>>
   /\ PTake
-  /\ UNCHANGED <<queue, qsend, pclosed, inLeft, closeReq, da1, rl, rlItem, ig, igItem, mn, appReads, quit, sig, posted, dropped, got, lost>>
+  /\ UNCHANGED <<queue, qsend, pclosed, inLeft, closeReq, nread, woke, rl, rlItem, ig, igItem, mn, appReads, quit, sig, posted, dropped, got, lost>>
 DrainEnd ==
   /\ mn = "drain" /\ pch = <<>> /\ pclosed /\ mn' = "wait"
-  /\ UNCHANGED <<queue, qsend, pch, psend, pclosed, inLeft, closeReq, da1, rl, rlItem, ig, igItem, appReads, quit, sig, posted, dropped, got, lost>>
+  /\ UNCHANGED <<queue, qsend, pch, psend, pclosed, inLeft, closeReq, nread, woke, rl, rlItem, ig, igItem, appReads, quit, sig, posted, dropped, got, lost>>
 WaitClose ==                       \* <-parser.closed; restore the terminal; close(chQuit)
   /\ mn = "wait" /\ rl = "done"
   /\ mn' = "closed" /\ quit' = TRUE
   /\ ig' = IF ig = "closing" THEN "done" ELSE ig
-  /\ UNCHANGED <<queue, qsend, pch, psend, pclosed, inLeft, closeReq, da1, rl, rlItem, igItem, appReads, sig, posted, dropped, got, lost>>
+  /\ UNCHANGED <<queue, qsend, pch, psend, pclosed, inLeft, closeReq, nread, woke, rl, rlItem, igItem, appReads, sig, posted, dropped, got, lost>>
 
 (* a blocking post gives up when the quit channel is closed *)
 QuitRelease ==
   /\ QuitEscape /\ quit /\ qsend # <<>>
   /\ qsend' = Tail(qsend)
-  /\ UNCHANGED <<queue, pch, psend, pclosed, inLeft, closeReq, da1, rl, rlItem, ig, igItem, mn, appReads, quit, sig, posted, dropped, got, lost>>
+  /\ UNCHANGED <<queue, pch, psend, pclosed, inLeft, closeReq, nread, woke, rl, rlItem, ig, igItem, mn, appReads, quit, sig, posted, dropped, got, lost>>
 
 (* ---- posters ---------------------------------------------------------------------- *)
 Post(p) ==
@@ -155,11 +164,11 @@ Post(p) ==
      ELSE IF p \in BlockingPosters THEN qsend' = Append(qsend, [who |-> p, ev |-> ev]) /\ UNCHANGED <<queue, dropped>>
      ELSE dropped' = dropped \cup {ev} /\ UNCHANGED <<queue, qsend>>
   /\ posted' = [posted EXCEPT ![p] = @ + 1]
-  /\ UNCHANGED <<pch, psend, pclosed, inLeft, closeReq, da1, rl, rlItem, ig, igItem, mn, appReads, quit, sig, got, lost>>
+  /\ UNCHANGED <<pch, psend, pclosed, inLeft, closeReq, nread, woke, rl, rlItem, ig, igItem, mn, appReads, quit, sig, got, lost>>
 
 Finished == mn = "closed" /\ UNCHANGED vars
 Next == RlRead \/ RlSend \/ RlAfter \/ IgTake \/ IgClosedCh \/ IgPost \/ IgPosted \/ IgSignal
-        \/ AppRead \/ StartClose \/ RaiseSignal \/ Suspend1 \/ DrainStep \/ DrainEnd \/ WaitClose \/ QuitRelease
+        \/ AppRead \/ StartClose \/ RaiseSignal \/ Suspend1 \/ Suspend2 \/ DrainStep \/ DrainEnd \/ WaitClose \/ QuitRelease
         \/ (\E p \in Posters : Post(p)) \/ Finished
 Spec == Init /\ [][Next]_vars
 FairSpec == Spec /\ WF_vars(Next)
